@@ -223,6 +223,28 @@ func c16Specs(tier string) []*h.SeqSpec {
 					return nil
 				})
 			}
+			// a mount source that leaves the root: the sibling directory next to the root is a layout that holds l2
+			for _, src := range []string{"../sibling", pr.x + "/" + strings.Repeat("../", strings.Count(pr.x, "/")+2) + "sibling"} {
+				src := src
+				wrap("mount l2 into "+pr.x+" from "+src+" (outside the root)", pr.x, "", func(w *h.World) []h.Violation {
+					dig := f.Items["l2"].Dig
+					if h.Dig("sha256", []byte("layer-2")) != dig {
+						panic("the sibling layout's blob is not l2")
+					}
+					r := w.Do(h.Req{Method: "POST", Path: "/v2/" + pr.x + "/blobs/uploads/", Query: "mount=" + url.QueryEscape(dig) + "&from=" + url.QueryEscape(src)})
+					switch r.Status {
+					case 201:
+						if _, has := regM(w).Repo(pr.x).Cas["l2"]; !has {
+							regM(w).Repo(pr.x).PushBlob("l2") // keep the model in step with what was acknowledged
+							return []h.Violation{h.V("mount-needs-source", "mount-from-outside-the-root", "mount of l2 into %s from %q answered 201: the content came from a directory outside the root", pr.x, src)}
+						}
+					case 202:
+						p, _ := parseLocation(r.H.Get("Location"))
+						w.Do(h.Req{Method: "DELETE", Path: p})
+					}
+					return nil
+				})
+			}
 			// digests with dot segments inside a manifest body (nothing but the store looks at them): an index pushed to x whose child
 			// "digest" points at a blob of y, or at a file outside the root; then the tag is read with an Accept that selects the child
 			for _, tgt := range []struct{ name, dig string }{
